@@ -3,7 +3,7 @@
    single-alternative collapse, widening, complexity threshold; flags forced to top). *)
 From Coq Require Import ZArith List Bool.
 Import ListNotations.
-Require Import Amoco.C19.Model Amoco.C19.Proofs.
+Require Import Amoco.C19.Model Amoco.C19.Proofs Amoco.C19.MemMerge Amoco.C19.MemMergeProofs.
 Open Scope Z_scope.
 
 Theorem C19_join_lists_both : forall cx thr w v1 v2,
@@ -31,6 +31,33 @@ Theorem C19_merge_covers_eval : forall (f : Z -> Z) r v, covers r v ->
   is_unknown r = true \/ incl (map f (alts v)) (map f (alts r)).
 Proof. exact merge_covers_eval. Qed.
 Print Assumptions C19_merge_covers_eval.
+
+(* Memory under overlapping stores (any number of stores of any widths at any offsets, in both maps): what the merged map
+   holds at an address is exactly the pair (content in the first map, content in the second map) wherever either map stored,
+   whatever the replay order; addresses stored to by neither stay untouched. *)
+Theorem C19_merge_overlapping_stores : forall m1 m2 a,
+  mcontent (merge_mem m1 m2) a =
+  if written m1 a || written m2 a then Some (content m1 a, content m2 a) else None.
+Proof. exact merge_mem_correct. Qed.
+Print Assumptions C19_merge_overlapping_stores.
+
+Theorem C19_merge_memory_lists_both : forall m1 m2 a v,
+  content m1 a = Some v \/ content m2 a = Some v ->
+  exists x y, mcontent (merge_mem m1 m2) a = Some (x, y) /\ x = content m1 a /\ y = content m2 a /\ (x = Some v \/ y = Some v).
+Proof. exact merge_mem_lists_both. Qed.
+Print Assumptions C19_merge_memory_lists_both.
+
+Theorem C19_merge_memory_untouched : forall m1 m2 a,
+  content m1 a = None -> content m2 a = None -> mcontent (merge_mem m1 m2) a = None.
+Proof. exact merge_mem_untouched. Qed.
+Print Assumptions C19_merge_memory_untouched.
+
+(* the merge as it was before the fix: commit (values recorded with the stores, already-merged pointers skipped) loses a store *)
+Theorem C19_merge_before_fix_refuted : exists m1 m2 a v,
+  content m2 a = Some v /\ mcontent (merge_stale m1 m2) a <> Some (content m1 a, content m2 a) /\
+  mcontent (merge_mem m1 m2) a = Some (content m1 a, content m2 a).
+Proof. exact merge_stale_refuted. Qed.
+Print Assumptions C19_merge_before_fix_refuted.
 
 Example C19_nonvacuous :
   let m1 := [(1, Atom 10); (2, Vec [20; 21]); (9, Atom 5)] in
